@@ -186,3 +186,60 @@ func validateTrace(sc *Scratch, module string, events []map[string]any) (*TraceV
 func (m Mismatch) String() string {
 	return fmt.Sprintf("%s@%d %s exp=%s got=%s st=%s path=%s hdr=%s info=%s", m.H, m.L, m.Check, m.Exp, m.Got, m.St, m.Path, m.Hdr, m.Info)
 }
+
+// ---------------------------------------------------------------- histories emitted by generation configs
+
+type ModelHist struct {
+	Init struct {
+		Lines []string `json:"lines"`
+		NL    bool     `json:"nl"`
+	} `json:"init"`
+	Hist []struct {
+		Op   string   `json:"op"`
+		T    string   `json:"t"`
+		V    []string `json:"v"`
+		Mode string   `json:"mode"`
+	} `json:"hist"`
+}
+
+// modelHistories runs a generation configuration (BFS when simulate == 0, else -simulate) and
+// returns the de-duplicated histories TLC printed.
+func modelHistories(sc *Scratch, module, cfg string, simulate, depth int, seed int64) ([]*ModelHist, *TLCResult, error) {
+	dir, err := specDir(sc, sc.Next("gen"))
+	if err != nil {
+		return nil, nil, err
+	}
+	var extra []string
+	workers := 8
+	if simulate > 0 {
+		workers = 1
+		extra = []string{"-simulate", fmt.Sprintf("num=%d", simulate), "-depth", strconv.Itoa(depth), "-seed", strconv.FormatInt(seed, 10)}
+	}
+	res, err := runTLC(dir, module, cfg, workers, 10*time.Minute, extra...)
+	if err != nil {
+		return nil, res, err
+	}
+	if res.Violation {
+		return nil, res, inconclusive("generation config %s reported a violation: %s", cfg, res.ViolatedBy)
+	}
+	seen := map[string]bool{}
+	var out []*ModelHist
+	for _, line := range res.Printed {
+		s, err := strconv.Unquote(line)
+		if err != nil {
+			return nil, res, inconclusive("cannot unquote TLC output line: %v: %.200s", err, line)
+		}
+		s = strings.TrimPrefix(s, "@@")
+		if seen[s] {
+			continue
+		}
+		seen[s] = true
+		h := &ModelHist{}
+		if err := json.Unmarshal([]byte(s), h); err != nil {
+			return nil, res, inconclusive("cannot parse emitted history: %v", err)
+		}
+		out = append(out, h)
+	}
+	os.RemoveAll(dir)
+	return out, res, nil
+}
